@@ -263,27 +263,42 @@ PROPS = {
         title='Grammar front-ends only produce well-typed, grammatical derivations',
         level='proof',
         vc=['rigid.Diagram.fa', 'rigid.Diagram.ba', 'rigid.Diagram.fc', 'rigid.Diagram.bc', 'rigid.Diagram.fx',
-            'rigid.Diagram.bx', 'rigid.Diagram.curry'], sym=[], rtc='C18',
-        level_text='Proved (VC, all type lengths incl. empty): the rigid images of the seven categorial rules. With F(a << b) = '
-                   'F(a) @ F(b).l and F(a >> b) = F(a).r @ F(b), the real bodies of rigid.Diagram.fa / ba / fc / bc / fx / bx / '
-                   'curry, run on arbitrary symbolic types A, B, C (adjoints as uninterpreted functions with the pregroup facts: '
-                   'length preserved, .l and .r mutually inverse, order-reversing on concatenations), return a well-formed '
-                   'diagram whose dom / cod are exactly the images of the rule\'s dom / cod, and no exception escapes: this '
-                   'is where the wire counting (`-len(right) or len(left)`, `-n_wires or len(dom)`) is decided for every '
-                   'nesting depth at once.  NOT proved, bounded stand-in only: the rule dispatch of biclosed.Functor.__call__, '
-                   'the CCG tree walk, the eager / brute-force pregroup parser and CFG.generate: eager_parse on all sentences '
-                   'of <= 3 (sampled 4) words over a 10-word vocabulary incl. double adjoints and an empty word (empty domain, '
-                   'requested target, the words in order followed only by cups on adjacent adjoint types, re-derived '
-                   'independently by scanning), brute_force; CFG.generate over 40 seeds x 3 depth limits; biclosed -> rigid: '
-                   'FA/BA over all pairs and FC/BC/FX/BX over triples of 10 slash types (nested, composite sides), Curry for '
-                   'every 1 <= n_wires <= len(dom) on both sides, derivations and CCG trees.',
+            'rigid.Diagram.bx', 'rigid.Diagram.curry',
+            'biclosed.FA.__init__', 'biclosed.BA.__init__', 'biclosed.FC.__init__', 'biclosed.BC.__init__',
+            'biclosed.FX.__init__', 'biclosed.BX.__init__', 'biclosed.Curry.__init__',
+            'biclosed.Functor.__call__[Over]', 'biclosed.Functor.__call__[Under]', 'biclosed.Functor.__call__[FA]',
+            'biclosed.Functor.__call__[BA]', 'biclosed.Functor.__call__[FC]', 'biclosed.Functor.__call__[BC]',
+            'biclosed.Functor.__call__[FX]', 'biclosed.Functor.__call__[BX]', 'biclosed.Functor.__call__[Curry]'],
+        sym=[], rtc='C18',
+        level_text='Proved (VC, all type lengths and nesting depths): the translation clause, end to end for a single rule. '
+                   '(1) The class invariants of the rule boxes: the real constructors of biclosed.FA / BA / FC / BC / FX / BX / '
+                   'Curry store the dom / cod of the rule (slash types as one-object types with two sides, uninterpreted). '
+                   '(2) The rule dispatch of biclosed.Functor.__call__, branch by branch on the real body: on slash types '
+                   'F(a << b) = F(a) @ F(b).l and F(a >> b) = F(a).r @ F(b); on each rule box the arguments handed to the '
+                   'rigid rule image satisfy its precondition and the result is a well-formed diagram F(box.dom) -> F(box.cod) '
+                   '(for Curry: with the wire count recomputed from the curried side). (3) The rigid images themselves: '
+                   'rigid.Diagram.fa / ba / fc / bc / fx / bx / curry on arbitrary symbolic types A, B, C (adjoints as '
+                   'uninterpreted functions with the pregroup facts) return a well-formed diagram with exactly the promised '
+                   'dom / cod and raise nothing: this is where the wire counting (`-len(right) or len(left)`, '
+                   '`-n_wires or len(dom)`) is decided for every nesting depth at once; the call-site form of each rule '
+                   'contract is checked against the proved form on every run.  NOT proved, bounded stand-in only: the CCG '
+                   'tree walk, composite derivations (the monoidal part is C04), the eager / brute-force pregroup parser and '
+                   'CFG.generate: eager_parse on all sentences of <= 3 (sampled 4) words over a 10-word vocabulary incl. '
+                   'double adjoints and an empty word (empty domain, requested target, the words in order followed only by cups '
+                   'on adjacent adjoint types, re-derived independently by scanning), brute_force; CFG.generate over 40 seeds '
+                   'x 3 depth limits; biclosed -> rigid: FA/BA over all pairs and FC/BC/FX/BX over triples of 10 slash types '
+                   '(nested, composite sides), Curry for every 1 <= n_wires <= len(dom) on both sides, derivations and CCG trees.',
         level_note='Assumed call-site contracts (exercised by the bounded driver, not proved): rigid cups(l, r) / caps(l, r) '
                    'return a well-formed diagram l @ r -> Ty() / Ty() -> l @ r when l.r == r or r.r == l and raise AxiomError '
-                   'otherwise; swap(l, r) returns a well-formed l @ r -> r @ l; Upgrade is the identity on the modelled fields. '
-                   'Contract precondition for Curry: 1 <= n_wires <= len(dom) (n_wires = 0 is outside the documented domain). '
-                   'The parser / generator / dispatch clauses are bounded, not proved.',
-        technique='VCs from the real AST of the rule images discharged by z3 / cvc5 over word equations with adjoints; bounded '
-                  'run-time contracts with independent re-derivation for the parser, generator and dispatch'),
+                   'otherwise; swap(l, r) returns a well-formed l @ r -> r @ l; Upgrade is the identity on the modelled fields; '
+                   'monoidal.Box.__init__ stores name, dom, cod as given; the functor is a homomorphism on tensors of types '
+                   '(the `len(diagram) > 1` branch, as in C04) and sends a sub-diagram to a well-formed diagram F(dom) -> F(cod) '
+                   '(induction hypothesis at the recursive call in the Curry branch). Preconditions: for Curry 1 <= n_wires <= '
+                   'len(dom) (n_wires = 0 is outside the documented domain) and the image of the curried wires is not the '
+                   'unit type. The parser / generator / tree-walk clauses are bounded, not proved.',
+        technique='VCs from the real AST of the rule constructors, the functor dispatch and the rule images, discharged by '
+                  'z3 / cvc5 over word equations with adjoints and slash types; bounded run-time contracts with independent '
+                  're-derivation for the parser, generator and tree walk'),
     'C19': dict(
         title='Cartesian diagrams compute the function they draw',
         level='exploration',
